@@ -5,6 +5,7 @@ CONSTANTS Inf = 3
   Handlers = {"p", "q"}
   MaxTruth = 4
   MaxDeliver = 5
+  Restarts = FALSE
 INVARIANTS NoOverlap NoRegress SequentialStorageEqualsCache ServedNotAheadOfTruth
 VIEW View
 CHECK_DEADLOCK FALSE
